@@ -113,3 +113,42 @@ Example C03_oneof_example :
     (VMap t_any_map false [(vstr "kind", vstr "1"); (vstr "p", VInt (TInt U8) 4)])
   = Ok (VMap t_str_map false [(vstr "p", vi64 4); (vstr "kind", vi64 1)]).
 Proof. vm_compute. reflexivity. Qed.
+
+(* ====================================================================================================
+   Struct-mapped objects (Schema/XOps.v; Proofs/XPaths.v): validateStruct and serializeStruct enforce one
+   and the same type / presence predicate on a Go value (xstruct_native_ok: the value is exactly a T — a
+   non-nil pointer when T = *S —, the presence rules hold on the set of properties PRESENT in the struct,
+   every present field value is accepted by its property type), where presence is decided by the field
+   extraction alone (xfield_value: the field FieldByName finds; absent behind a nil embedded pointer, as a
+   nil pointer, as a nil interface, or — treat-empty-as-default — when it DeepEquals the empty value; a
+   pointer field is dereferenced unless the property's own reflected type is a pointer).  The only
+   hypothesis is what buildObjectFieldCache guarantees: every property has a field. *)
+From Verif Require Import Base.XReflect Schema.XSyntax Schema.XOps Schema.XWf Proofs.XStruct Proofs.XPaths Proofs.XExamples.
+
+Theorem C03_struct_paths_agree : forall words pu f e id u props si v,
+  xfields_ok props (Some si) = true ->
+  (xvalidate words pu (S f) e (XObject id u props (Some si)) v = Ok tt <->
+     xstruct_native_ok (fun s x => xvalidate words pu f e s x = Ok tt) e props si v) /\
+  ((exists w, xserialize words pu (S f) e (XObject id u props (Some si)) v = Ok w) <->
+     xstruct_native_ok (fun s x => exists y, xserialize words pu f e s x = Ok y) e props si v).
+Proof. exact x_struct_paths_agree. Qed.
+Print Assumptions C03_struct_paths_agree.
+
+(* hence the same verdict whenever the property types give the same verdict on the field values *)
+Theorem C03_struct_paths_agree_verdict : forall words pu f e id u props si v,
+  xfields_ok props (Some si) = true ->
+  (forall np x, In np props ->
+     (xvalidate words pu f e (p_type (snd np)) x = Ok tt <-> exists y, xserialize words pu f e (p_type (snd np)) x = Ok y)) ->
+  (xvalidate words pu (S f) e (XObject id u props (Some si)) v = Ok tt <->
+   exists w, xserialize words pu (S f) e (XObject id u props (Some si)) v = Ok w).
+Proof. exact x_struct_paths_agree_verdict. Qed.
+Print Assumptions C03_struct_paths_agree_verdict.
+
+(* XNested{In XInner; P *XInner; X int64} of the harness: the nil pointer member is absent, both paths accept *)
+Example C03_struct_paths_example :
+  let v := VStruct (TStruct "XNested") [("In", xs_inner_v 1 "q"); ("P", VPtr (TPtr (TStruct "XInner")) None); ("X", vi64 3)] in
+  xfields_ok xs_nested_props (Some xs_nested_si) = true /\
+  xvalidate w_words w_pu 8 (xs_env xs_tab) xs_nested v = Ok tt /\
+  is_ok (xserialize w_words w_pu 8 (xs_env xs_tab) xs_nested v) = true /\
+  xpresent (xs_env xs_tab) xs_nested_si v xs_nested_props = [("in", xs_inner_v 1 "q"); ("x", vi64 3)].
+Proof. exact xs_paths_accept. Qed.
